@@ -158,7 +158,7 @@ def run(chk):
         # the alternative to an architecture - only a bracketed list does
         qual = lambda: rng.choice([b":native", b":any", b":i386", b":amd64", b":all", b":musl-linux-amd64"]) if rng.random() < 0.3 else b""
         text = b", ".join(b" | ".join(
-            (a[0] if a[1] is None else a[0] + qual() + (b" [" + b" ".join((b"!" if a[1] else b"") + x for x in a[2]) + b"]" if a[2] else b""))
+            (a[0] if a[1] is None else a[0] + qual() + (rng.choice([b" ", b" ", b"", b"\t "]) + b"[" + b" ".join((b"!" if a[1] else b"") + x for x in a[2]) + b"]" if a[2] else b""))
             for a in alts) for alts in rels)
         target = rng.choice([b"amd64", b"i386", b"hurd-i386", b"kfreebsd-amd64", b"musl-linux-amd64", b"armhf"])
         tt = name_to_triple(target)
